@@ -241,6 +241,13 @@ func checkC12(w *World, tier string) *Report {
 	r.Explanation += " R12.6 every condition that decides an error return of StateChanges.saveKey is a test of the offset operand, a nil test of a parameter, the parent not found by findKey, or the error of a callee: a well-formed key journal is not refused because of what was or was not recorded before (e.g. an account without a root yet)."
 	addJustifiedRefusalRule(w, r, "R12.5", []string{"loadDataFromMem"}, nil)
 	r.need("R12.5", 4)
+	// seventh batch: "malformed operands halt the frame" has a complement to R12.5/R12.6 — an operand that does not
+	// fit is seen as malformed at all. The recorder's offset conversions are lossless readings of the 256-bit operand
+	// (C11 R11.2): a helper that tests only the low 64 bits lets 2^64+3 through as offset 3 and the frame goes on
+	addNoSwallowedErrorRule(w, r, "R12.8")
+	r.Explanation += " R12.8 (SSA def-use) in the eight journal instructions and their closures the error component of every call flows, directly or through phis, into a return statement: an error of the operand decoder or the recorder that is only tested (a shadowed `err`) and dropped would let the frame run on."
+	addConvRule(w, r, "R11.2", []string{"(*StateChanges).saveKey", "(*StateChanges).saveChange", "(*StateChanges).Slot"})
+	r.Explanation += " R11.2 (shared with C11) every integer conversion of a 256-bit operand in the recorder's entry points and their helpers is lossless or dominated by the overflow test: an operand beyond 64 bits is refused, not read modulo 2^64."
 	return r
 }
 
